@@ -27,9 +27,9 @@ type validator struct {
 	issues  []Issue
 	perRule map[string]int
 	// where each instruction lives
-	fnOf  []*Function // per instruction index: enclosing function (nil = module scope)
-	blkOf []*Block
-	posIn []int // position inside its block
+	fnOf   []*Function // per instruction index: enclosing function (nil = module scope)
+	blkOf  []*Block
+	posIn  []int // position inside its block
 	shader bool
 }
 
@@ -63,7 +63,16 @@ func Validate(m *Module) []Issue {
 	v.decorations()
 	v.entryPoints()
 	v.capabilities()
-	sort.SliceStable(v.issues, func(i, j int) bool { return v.issues[i].Inst < v.issues[j].Inst })
+	sort.SliceStable(v.issues, func(i, j int) bool {
+		a, b := v.issues[i], v.issues[j]
+		if a.Inst != b.Inst {
+			return a.Inst < b.Inst
+		}
+		if a.Rule != b.Rule {
+			return a.Rule < b.Rule
+		}
+		return a.Msg < b.Msg
+	})
 	return v.issues
 }
 
